@@ -802,7 +802,7 @@ func c10GenElf(t *rapid.T) *c10Elf {
 	if len(drafts) > 0 && rapid.IntRange(0, 39).Draw(t, "bulksections") == 0 {
 		// an image with very many sections (-ffunction-sections style): the drawn ones repeated
 		base := drafts
-		for total := rapid.SampledFrom([]int{33, 64, 65, 128, 200}).Draw(t, "nbulksec"); len(drafts) < total; {
+		for total := rapid.SampledFrom([]int{33, 64, 65, 128, 200, 1023, 1024, 1025, 1100, 2049}).Draw(t, "nbulksec"); len(drafts) < total; {
 			d := base[len(drafts)%len(base)]
 			d.s.Addr += uint64(len(drafts)) << 24
 			drafts = append(drafts, d)
